@@ -7488,7 +7488,9 @@ impl Machine {
     pub(crate) fn store_global_var(&mut self) {
         let key = cell_as_atom!(self.deref_register(1));
 
-        let value = self.machine_st.registers[2];
+        // the value, not the register's cell: that may be a reference into
+        // the caller's environment, which the copy would take for a variable.
+        let value = self.deref_register(2);
         let mut ball = Ball::new();
 
         ball.boundary = self.machine_st.heap.cell_len();
